@@ -1217,7 +1217,19 @@ VF_PART(fft_kernel)
     calc.setParam(SimuFFTParam(ix[2] == 1, 0.1));
     if (!calc._check() || !calc._preprocess()) { C.skip(); C.outcome("refused"); delete g; delete m; return; }
     calc._alloc();
-    calc._prepar(false);
+    // were the aliasing images really used? (they are only when the plain spectrum has negative terms)
+    bool imagesUsed = false;
+    if (ix[2] == 1)
+    {
+      calc.setParam(SimuFFTParam(false, 0.1));
+      calc._prepar(false);
+      VectorDouble plain = calc._cmat;
+      calc.setParam(SimuFFTParam(true, 0.1));
+      calc._prepar(false);
+      for (size_t k = 0; k < plain.size(); k++) if (plain[k] != calc._cmat[k]) { imagesUsed = true; break; }
+    }
+    else
+      calc._prepar(false);
     C.eval();
     int N = calc._sizes_alloc;
     std::vector<double> u(calc._cmat.begin(), calc._cmat.end()), v(N, 0.);
@@ -1253,9 +1265,9 @@ VF_PART(fft_kernel)
     bool rotated = ix[0] == 2 || ix[0] == 3 || ix[0] == 4 || ix[0] == 5 || ix[0] == 7;
     if (rotated && (ix[1] == 1 || ix[1] == 2 || ix[1] == 3 || ix[1] == 5 || ix[0] != 2)) C.nontrivial(id);
     const double TOLK = 0.02;
-    C.outcome(std::string(rotated ? "rotated-grid" : "axis-aligned-grid") + (worst <= 0.002 ? ":dev<=0.2%" : worst <= 0.005 ? ":dev<=0.5%" : worst <= 0.01 ? ":dev<=1%" : worst <= TOLK ? ":dev<=2%" : ":dev>2%"));
+    C.outcome(std::string(rotated ? "rotated-grid" : "axis-aligned-grid") + (imagesUsed ? ":aliasing-images-used" : "") + (worst <= 0.002 ? ":dev<=0.2%" : worst <= 0.005 ? ":dev<=0.5%" : worst <= 0.01 ? ":dev<=1%" : worst <= TOLK ? ":dev<=2%" : ":dev>2%"));
     if (!(worst <= TOLK) || !(maxim <= 1e-8 * sill))
-      C.violation(std::string("fft:kernel:") + (rotated ? "rotated-grid" : "axis-aligned-grid"),
+      C.violation(imagesUsed ? std::string("fft:kernel:aliasing-images") : "fft:kernel:grid" + std::to_string(ix[0]),
                   desc + " (dilated " + std::to_string(calc._dims[0]) + "x" + std::to_string(calc._dims[1]) + (ndim == 3 ? "x" + std::to_string(calc._dims[2]) : "") + "): the covariance discretised by simfft at the index offset (" +
                     std::to_string(wn[0]) + "," + std::to_string(wn[1]) + (ndim == 3 ? "," + std::to_string(wn[2]) : "") + ") is " + fmt(wgot) + ", the model at that lag gives " + fmt(wexp) + " (deviation " + f6(100 * worst) + " % of the sill; imaginary part " + f6(maxim) + ")",
                   kase);
